@@ -53,7 +53,7 @@ unexpected_cfgs = {{ level = "allow", check-cfg = ['cfg(kani)'] }}
 
 OBS = {
     "call_global_fusion_keeps_call_kind": dict(kind="proof", functions=["convert_call_globals"],
-        contract="for EVERY ordinary global (any name that is not one of the specialised primitives, `#%prim.` or not), every slot index, every argument count and each of FUNC / FUNCNOARITY / TAILCALL / TAILCALLNOARITY: `PUSH g; call n` becomes `<fused> g; call n` where the fused opcode is the global call of the SAME kind - CALLGLOBALTAIL[NOARITY] for a tail call (so a tail call to a global stays a tail call), CALLGLOBAL / CALLPRIMITIVE / CALLGLOBALNOARITY otherwise; the slot index, the argument count and the surrounding instructions are unchanged"),
+        contract="for EVERY ordinary global (any name that is not one of the specialised primitives, `#%prim.` or not), every slot index, every argument count and each of FUNC / FUNCNOARITY / TAILCALL / TAILCALLNOARITY: `PUSH g; call n` becomes `<fused> g; call n` where the fused opcode is the global call of the SAME kind - CALLGLOBALTAIL / CALLPRIMITIVETAIL / CALLGLOBALTAILNOARITY for a tail call (so a tail call to a global stays a tail call), CALLGLOBAL / CALLPRIMITIVE / CALLGLOBALNOARITY otherwise, arity-checked iff the original call was; the slot index, the argument count and the surrounding instructions are unchanged"),
     "call_global_fusion_frame": dict(kind="proof", functions=["convert_call_globals"], contract="a PUSH whose operand is not an identifier, or that is not followed by a call, is left alone; the empty program is accepted"),
 }
 
